@@ -3,6 +3,7 @@ package main
 import (
 	"fmt"
 	"go.sia.tech/core/consensus"
+	"go.sia.tech/coreutils/chain"
 
 	"go.sia.tech/core/types"
 	"verif/harness/lab/chainlab"
@@ -138,6 +139,60 @@ func (h *c19Hist) probePruned() {
 		}
 	}
 	h.r.Count("pruned_body_probes", 2)
+	// a subscriber sitting ON the highest pruned block of the best chain needs
+	// no pruned body to go on: its own block's header and state are kept, and
+	// every body above it is present - it has to reach the tip
+	var start *chainlab.Node
+	for x := h.pTip; x != nil; x = x.Parent {
+		if h.pruned[x.ID] {
+			start = x
+			break
+		}
+	}
+	if start == nil {
+		return
+	}
+	idx := start.L.State.Index
+	if start == h.pTip {
+		var err error
+		var n int
+		if p := mon.Guard(func() {
+			rus, aus, e := cm.UpdatesSince(idx, 3)
+			n, err = len(rus)+len(aus), e
+		}); p != nil || err != nil || n != 0 {
+			h.viol("subscriber-on-pruned-block-stranded", fmt.Sprintf("a subscriber at the (pruned) tip %v asked for updates: panic %v, error %v, %d updates", idx, p, err, n), nil)
+			return
+		}
+	}
+	for i := 0; idx != h.pTip.L.State.Index; i++ {
+		var rus []chain.RevertUpdate
+		var aus []chain.ApplyUpdate
+		var err error
+		if p := mon.Guard(func() { rus, aus, err = cm.UpdatesSince(idx, 3) }); p != nil {
+			h.viol("updates-since-panic:from-pruned-block", fmt.Sprint("UpdatesSince panicked: ", p), nil)
+			return
+		}
+		if err != nil {
+			h.viol("subscriber-on-pruned-block-stranded", fmt.Sprintf("a subscriber at %v (the highest pruned block of the best chain; every body above it is stored) cannot go on: %v", idx, err), nil)
+			return
+		}
+		if len(rus) != 0 || len(aus) == 0 || len(aus) > 3 || i > 10000 {
+			h.viol("subscriber-on-pruned-block-wrong-updates", fmt.Sprintf("from %v on the best chain: %d reverts, %d applies", idx, len(rus), len(aus)), nil)
+			return
+		}
+		for _, au := range aus {
+			n := h.pTip.Ancestor(idx.Height + 1)
+			if n == nil || au.State.Index != n.L.State.Index {
+				h.viol("subscriber-on-pruned-block-wrong-updates", fmt.Sprintf("update after %v leads to %v, not to the next block of the best chain", idx, au.State.Index), nil)
+				return
+			}
+			idx = au.State.Index
+		}
+	}
+	h.r.Count("subscribers_resumed_on_a_pruned_block", 1)
+	if start == h.pTip {
+		h.r.Count("subscribers_resumed_on_a_pruned_tip", 1)
+	}
 }
 
 func (h *c19Hist) prune(height uint64) {
@@ -405,6 +460,7 @@ func runC19(r *mon.Run, replay string) {
 	}
 	parallel(r.Pick(300, 5000), func(i int) { runC19History(r, uint64(190000+i)) })
 	r.Floor("pruned_node_audits", 500)
+	r.Floor("subscribers_resumed_on_a_pruned_block", 100)
 	r.Floor("prunes:beyond-tip+1", 20)
 	r.Floor("forks:below-minreorg", 20)
 	r.Floor("forks:at-minreorg", 20)
